@@ -1,7 +1,7 @@
 import CM.Model.Recognize
 import CM.Gen.Tags
 /-
-Model of html_renderer.go `filterRaw` (the GFM tag filter state machine), `maybeLower`,
+Model of html_renderer.go `filterRaw` (the GFM tag filter), `maybeLower`,
 parse_html.go `htmlTagNameEnd`, `hasHTMLDeclarationPrefix`, and `FilterTagGFM`.
 -/
 namespace CM.Model
@@ -20,95 +20,21 @@ def lower (x : Bytes) : Bytes := x.map fun b => if 0x41 ≤ b && b ≤ 0x5A then
 def hasHTMLDeclarationPrefix (b : Bytes) : Bool :=
   hasBytePrefix b [0x3C, 0x21] && b.length ≥ 3 && isASCIILetter (b.getD 2 0)
 
-inductive FState where
-  | copy | comment | pi | decl
-deriving Repr, BEq, DecidableEq
-
-inductive TagSt where
-  | tagName | beforeAttrName | attrName | afterAttrName | beforeAttrValue | dq | sq | uq
-deriving Repr, BEq, DecidableEq
-
-def isTagSpace (c : UInt8) : Bool := c == 0x20 || c == 0x09 || c == 0x0A || c == 0x0C
-
-/-- html_renderer.go `htmlTagEnd`: index just past the `>` that ends the tag (quoted attribute values may
-    contain `>`), or the length if the tag is not closed. `i` = bytes consumed so far. -/
-def htmlTagEndAux : Bytes → TagSt → Nat → Nat
-  | [], _, i => i
-  | c :: rest, st, i =>
-    match st with
-    | .tagName =>
-      if c == 0x3E then i + 1
-      else if isTagSpace c || c == 0x2F then htmlTagEndAux rest .beforeAttrName (i + 1)
-      else htmlTagEndAux rest .tagName (i + 1)
-    | .beforeAttrName =>
-      if c == 0x3E then i + 1
-      else if isTagSpace c || c == 0x2F then htmlTagEndAux rest .beforeAttrName (i + 1)
-      else htmlTagEndAux rest .attrName (i + 1)
-    | .attrName =>
-      if c == 0x3E then i + 1
-      else if isTagSpace c then htmlTagEndAux rest .afterAttrName (i + 1)
-      else if c == 0x2F then htmlTagEndAux rest .beforeAttrName (i + 1)
-      else if c == 0x3D then htmlTagEndAux rest .beforeAttrValue (i + 1)
-      else htmlTagEndAux rest .attrName (i + 1)
-    | .afterAttrName =>
-      if c == 0x3E then i + 1
-      else if isTagSpace c then htmlTagEndAux rest .afterAttrName (i + 1)
-      else if c == 0x2F then htmlTagEndAux rest .beforeAttrName (i + 1)
-      else if c == 0x3D then htmlTagEndAux rest .beforeAttrValue (i + 1)
-      else htmlTagEndAux rest .attrName (i + 1)
-    | .beforeAttrValue =>
-      if c == 0x3E then i + 1
-      else if isTagSpace c then htmlTagEndAux rest .beforeAttrValue (i + 1)
-      else if c == 0x22 then htmlTagEndAux rest .dq (i + 1)
-      else if c == 0x27 then htmlTagEndAux rest .sq (i + 1)
-      else htmlTagEndAux rest .uq (i + 1)
-    | .dq => if c == 0x22 then htmlTagEndAux rest .beforeAttrName (i + 1) else htmlTagEndAux rest .dq (i + 1)
-    | .sq => if c == 0x27 then htmlTagEndAux rest .beforeAttrName (i + 1) else htmlTagEndAux rest .sq (i + 1)
-    | .uq =>
-      if c == 0x3E then i + 1
-      else if isTagSpace c then htmlTagEndAux rest .beforeAttrName (i + 1)
-      else htmlTagEndAux rest .uq (i + 1)
-
-def htmlTagEnd (b : Bytes) : Nat := htmlTagEndAux b .tagName 0
-
-/-- The loop of `filterRaw`. `raw` is what is left from index `i`; `skip` bytes of it are jumped over by an
-    index jump (`i += n`, copied verbatim); output is produced per byte position, so the `copyStart`
-    bookkeeping becomes "emit this byte, or `&lt;` in its place". The predicate sees lower-cased names. -/
-def filterLoop (filter : Bytes → Bool) : Bytes → FState → Nat → Bytes
-  | [], _, _ => []
-  | c :: rest, st, skip + 1 => c :: filterLoop filter rest st skip
-  | c :: rest, .copy, 0 =>
+/-- The loop of `filterRaw`: every `<` is examined on its own — the bytes after it that form a tag name
+    (`htmlTagNameEnd`; empty when no letter follows) are lower-cased and shown to the predicate, and the `<` is
+    replaced by `&lt;` when the predicate rejects. Nothing else is ever skipped or changed, and the function
+    keeps no state between positions (nor, therefore, between raw HTML nodes). The `copyStart` bookkeeping of
+    the Go loop becomes "emit this byte, or `&lt;` in its place". -/
+def filterLoop (filter : Bytes → Bool) : Bytes → Bytes
+  | [] => []
+  | c :: rest =>
     if c == 0x3C then
-      let here := c :: rest
-      if hasBytePrefix here htmlCommentPrefix then
-        let after := rest.drop (htmlCommentPrefix.length - 1)
-        if hasBytePrefix after [0x3E] then c :: filterLoop filter rest .copy htmlCommentPrefix.length          -- `<!-->`
-        else if hasBytePrefix after [0x2D, 0x3E] then c :: filterLoop filter rest .copy (htmlCommentPrefix.length + 1)  -- `<!--->`
-        else c :: filterLoop filter rest .comment (htmlCommentPrefix.length - 1)
-      else if hasBytePrefix here [0x3C, 0x21] || hasBytePrefix here processingInstructionPrefix
-              || (hasBytePrefix here [0x3C, 0x2F] && !(match rest.drop 1 with | d :: _ => isASCIILetter d | [] => false)) then
-        c :: filterLoop filter rest .decl 1
-      else
-        -- tagEnd: where an HTML parser ends the tag, or the end of the raw text
-        -- (for an end tag the scan starts after the slash, at the name)
-        let tagLen := if rest.head? == some 0x2F then 1 + htmlTagEnd (rest.drop 1) else htmlTagEnd rest
-        let nameLen := htmlTagNameEnd (rest.take tagLen)
-        let escaped := filter (lower (rest.take nameLen))
-        (if escaped then [0x26, 0x6C, 0x74, 0x3B] else [c])
-          ++ filterLoop filter rest .copy (if escaped || (nameLen == 0 && !(rest.head? == some 0x2F)) then 0 else tagLen)
-    else c :: filterLoop filter rest .copy 0
-  | c :: rest, .comment, 0 =>
-    if hasBytePrefix (c :: rest) htmlCommentSuffix then c :: filterLoop filter rest .copy (htmlCommentSuffix.length - 1)
-    else if hasBytePrefix (c :: rest) [0x2D, 0x2D, 0x21, 0x3E] then c :: filterLoop filter rest .copy 3
-    else c :: filterLoop filter rest .comment 0
-  | c :: rest, .pi, 0 =>
-    if hasBytePrefix (c :: rest) processingInstructionSuffix then c :: filterLoop filter rest .copy (processingInstructionSuffix.length - 1)
-    else c :: filterLoop filter rest .pi 0
-  | c :: rest, .decl, 0 =>
-    if c == 0x3E then c :: filterLoop filter rest .copy 0 else c :: filterLoop filter rest .decl 0
+      (if filter (lower (rest.take (htmlTagNameEnd rest))) then [0x26, 0x6C, 0x74, 0x3B] else [c])
+        ++ filterLoop filter rest
+    else c :: filterLoop filter rest
 
-/-- `(*renderState).filterRaw` on one raw HTML node (the state always starts in `copy`). -/
-def filterRaw (filter : Bytes → Bool) (raw : Bytes) : Bytes := filterLoop filter raw .copy 0
+/-- `(*renderState).filterRaw` on one raw HTML node. -/
+def filterRaw (filter : Bytes → Bool) (raw : Bytes) : Bytes := filterLoop filter raw
 
 /-- `FilterTagGFM` (atom.Lookup is exact-match on the lower-cased name). -/
 def filterTagGFM (tag : Bytes) : Bool := filterTagGFMNames.contains tag
